@@ -18,7 +18,8 @@
 (***************************************************************************)
 EXTENDS Index, RefFS, SequencesExt
 
-CONSTANTS MaxTape,            \* bound on Len(tape) for model checking
+CONSTANTS BatchMembers,       \* set of member-name sequences for batched Archive calls
+          MaxTape,            \* bound on Len(tape) for model checking
           Chunks,             \* content chunk ids
           AttrVals,           \* values k>=1 for Chmod/Chown/Chtimes
           MaxContent,         \* bound on Len(content)
@@ -62,6 +63,7 @@ Archives(r, c, r2) ==
          ELSE LET sq == SetToSeq(Subtree(r, p))
                   mv == [i \in 1..Len(sq) |-> P("UPDATE", Rebase(sq[i], p, q), sq[i], FALSE, r[sq[i]])]
               IN IF Exists(r, q) THEN << <<P("DELETE", q, q, FALSE, r[q])>>, mv >> ELSE << mv >>
+    [] c.op = "Archive" -> << [i \in 1..Len(q) |-> P("CREATE", p \o <<q[i]>>, p \o <<q[i]>>, FALSE, FileNode(<<c.c>>))] >>
     [] c.op \in {"Chmod", "Chown", "Chtimes"} -> << <<P("UPDATE", p, p, FALSE, r2[p])>> >>
     [] OTHER -> << >>
 
@@ -119,12 +121,16 @@ Calls ==
   \cup {C("WriteFile", p, Root, ch, 0) : p \in Paths, ch \in Chunks}
   \cup {C("Append", p, Root, ch, 0) : p \in {x \in Paths : x \in DOMAIN ref /\ Len(ref[x].content) < MaxContent}, ch \in Chunks}
   \cup {C("Rename", p, q, "", 0) : p \in Paths \ {Root}, q \in Paths \ {Root}}
+  \* batched Operations.Archive: 1..MaxBatch members with content below an existing directory
+  \cup {C("Archive", p, m, ch, 0) : p \in {x \in Paths : x \in DOMAIN ref /\ ref[x].kind = "dir" /\ Len(x) < MaxDepth},
+                                      m \in BatchMembers, ch \in Chunks}
 
 \* Rename can deepen a subtree beyond MaxDepth; keep the model's universe closed.
 Fits(c) == c.op = "Rename" /\ c.p \in DOMAIN ref =>
              \A s \in Subtree(ref, c.p) : Len(Rebase(s, c.p, c.q)) <= MaxDepth
 
-Next == \E c \in Calls : Fits(c) /\ Do(c)
+ArchiveOK(c) == c.op = "Archive" => \A i \in 1..Len(c.q) : ~IsDir(ref, c.p \o <<c.q[i]>>)
+Next == \E c \in Calls : Fits(c) /\ ArchiveOK(c) /\ Do(c)
 
 Spec == Init /\ [][Next]_vars
 
